@@ -50,7 +50,8 @@ claim("C16",
       "against recompute-on-demand accessors, path-enumerated None-safety of reclaimable fields",
       "Decides the structural preconditions of transparency: nothing persisted is dropped or restored from the wrong "
       "source, index-sensitive persisted data (node_indices) refers to a network in the same variable order before and "
-      "after a round trip (the network object is persisted, or the text is lossless and order-preserving), reclamation only "
+      "after a round trip (the network object is persisted and the text parser runs only where it is missing, or the text is "
+      "lossless and order-preserving), reclamation only "
       "drops caches that have a recompute path and never a result (known attractors, structure), every reader of "
       "reclaimable data tolerates None or is preceded by a computing access, and a reclaimable value is read only by its own "
       "accessor or where its presence provably does not change what is computed (history independence).",
@@ -94,7 +95,9 @@ claim("C03",
       "tables against the driver's permitted reasons; provenance of skip-edge trap lists; block-choice comparison",
       "Decides for all six drivers that a successor / node is dropped only for a permitted reason (seen; no uncovered minimal "
       "trap below the current node; empty constant-limit probe; disjoint from or strictly inside the target; already expanded), "
-      "that skip edges lead to every minimal trap space inside the skipped node, that a node is declared minimal only on the "
+      "that skip edges lead to every minimal trap space inside the skipped node, that the nodes created for those trap spaces are "
+      "closed (marked expanded), that a skipping call reporting success has closed its node and that the `skipped` flag "
+      "accompanies the skip edges, that a node is declared minimal only on the "
       "evidence `minimal traps == [its own space]`, that block choice drops a block iff a strict sub-block exists, that a "
       "driver returns True only after its work list is exhausted, that no expansion needed for completeness is the operand "
       "of an assert, and that the public expansion methods return the result of the strategy run on the diagram itself.",
@@ -105,7 +108,7 @@ claim("C05",
       "provenance analysis of everything subtracted from a node's search region (candidate computation and symbolic fallback), shared skip-edge rule",
       "Decides that only a node's own successors ever bound its attractor search (the unsound skip-node reduction, defect "
       "F13, is reported by this rule and was repaired), that skip edges reach every minimal trap space inside the node, and "
-      "that skip nodes are flagged skipped and expanded.",
+      "that skip nodes are flagged skipped and expanded and the nodes of their minimal trap spaces are closed.",
       "Duplicates between overlapping skip nodes are allowed by the property; exactly-once without motif-avoidant attractors "
       "follows from C03-K + C08 and is not decided separately.",
       "DESIGN.md §3 C05")
@@ -128,7 +131,8 @@ claim("C07",
       "skipped, that `successful` and the result filter are the stated predicates, that no control function mutates its "
       "caller's arguments, that target-directed expansion leaves a node unexpanded iff it is disjoint from or strictly inside "
       "the target, that the end nodes are classified as in C06-D3, and that successions are the products of reduced motif "
-      "lists along all simple paths to the end nodes.",
+      "lists along all simple paths to the end nodes; the canonical form of an intervention keeps every override of every "
+      "step (no container keyed by part of an override, every step stored).",
       "Completeness and minimality as set equalities over run-time values are not decided.",
       "DESIGN.md §3 C07")
 
@@ -140,7 +144,8 @@ claim("C08",
       "follows, that emptiness is concluded only from complete lists, that enumeration and filters work on the node's own "
       "reduced net and child motifs, that the filters drop a state only when it provably reaches another candidate or a "
       "child, and that every step of a simulated walk updates one variable with its own update function evaluated on the "
-      "current state (asynchronous semantics).",
+      "current state (asynchronous semantics), that the reachability (pint) filter drops a state only on a positive answer "
+      "of the tool, and that surviving states are decoded variable by variable and all collected.",
       "The NFVS reduction theorem and clingo's completeness are assumed; the solver contract len<=limit is decided by C09-T3.",
       "DESIGN.md §3 C08")
 
@@ -185,7 +190,8 @@ claim("C12",
       "on its own afterwards, that sets are recomputed from "
       "the node's own seeds in the order given, that the reachability test returns only after saturating every variable that has "
       "an enabled step, that every growth of the reach or avoid set re-arms its fixpoint loop, and that a forward step which "
-      "is possible but declined is remembered and taken later.",
+      "is possible but declined is remembered and taken later; each flag-controlled fixpoint loop of the test is entered and "
+      "a round that enlarges a state set asks for another round (the returned set is closed).",
       "Equality with the true attractor relies on AEON; agreement of the fallback as sets is not decided.",
       "DESIGN.md §3 C12")
 
